@@ -9,19 +9,23 @@ def tasks(tier):
             + contract_tasks("contracts.groups", "C11", tier=tier) + lemma_tasks("contracts.groups", "C11")
             + contract_tasks("contracts.tiered_time", "C08", names=["IntervalAdd", "IntervalLt"])
             + lemma_tasks("contracts.tiered_time", "C08", names=["CompAssociative", "CompMonotoneRight", "LtTransitive"])
-            + other_tasks("contracts.closure", "C06", "bounded"))
+            + contract_tasks("contracts.cycles_ded", "C06") + lemma_tasks("contracts.cycles_ded", "C06") + other_tasks("contracts.closure", "C06", "bounded"))
 
 
 TRUSTED_BASE = TRUSTED_CORE
 ASSUMPTIONS = [
-    "the worklist closure of ensure_no_dataflow_cycles / cache_triggering_ancestors (nested loops over mutable dicts of dicts with a dirty set) is "
-    "outside the deductive subset: it is run natively on every scenario of a stated bounded family and compared with the property's own rule",
+    "ensure_no_dataflow_cycles (contract contracts.cycles_ded): simulators and delays are uninterpreted sorts, delays with a total preorder and a composition "
+    "monotone in its right argument (C08 lemmas trichotomy, lt_transitive, comp_monotone_right); all(t == 0 for t in delay.tiers) is the uninterpreted predicate "
+    "is_zero; dicts and sets are walked in an arbitrary order, each key once; set.pop() returns an arbitrary member; the path lists recorded for the message are "
+    "abstracted; the induction over connection paths (lemmas cycle_min_base / cycle_min_step) is applied outside the solver; termination not proved",
+    "the step from 'the shortest cycle through s has delay zero' to the property's rule (no time-shifted connection and no weak connection inside its group on "
+    "some cycle) is arithmetic of TieredInterval that is NOT mechanised: it is checked by the bounded stand-in, which applies the rule literally",
     "delays outside K_mixed (known findings F11 / F6)",
 ]
-NOT_COVERED = ['exactness of the cycle check for scenarios beyond the bound of the stand-in (more simulators / connections, deeper groups): not proved', 'scenarios with two paths whose accumulated delays are incomparable (K_mixed): known finding F6, the closure dies with AssertionError']
-LEVEL_TEXT = "Building blocks proved for all inputs: update_min (keeps the minimum, None iff no improvement), delay composition (associative, monotone) and order (transitive, exactly one of <, =, >) on mosaik/tiered_time.py outside K_mixed, connect_one's per-pair minimum. The closure and the accept / reject decision themselves: BOUNDED stand-in -- every set of up to 3 (thorough: 4) connections over four group shapes, against the property's rule (unresolved cycle iff rejected, named cycle is real)."
+NOT_COVERED = ['the translation between a zero shortest-cycle delay and the rule of the statement (time-shifted / weak inside the shared group), and that the cycle NAMED in the message is real, beyond the bound of the stand-in', 'scenarios with two paths whose accumulated delays are incomparable (K_mixed): known finding F6, the closure dies with AssertionError']
+LEVEL_TEXT = "Building blocks proved for all inputs: update_min (keeps the minimum, None iff no improvement), delay composition (associative, monotone) and order (transitive, exactly one of <, =, >) on mosaik/tiered_time.py outside K_mixed, connect_one's per-pair minimum. The closure ensure_no_dataflow_cycles itself (contract, any number of simulators and connections, any walking order): every recorded entry is the delay of a connection path (SOUND) and is not above the delay of ANY connection path (DIRECT + CLOSED loop invariants, two path-induction lemmas), and ScenarioError is raised IFF some simulator reaches itself with delay zero. The translation to the rule of the statement and the named cycle: BOUNDED stand-in -- every set of up to 3 (thorough: 4) connections over four group shapes, against the property's rule (unresolved cycle iff rejected, named cycle is real)."
 DESIGN_REF = "DESIGN.md section 8 (C06)"
-LEVEL_NOTE = 'Mixed: lemmas and function contracts are proofs; the exactness statement itself is bounded (coverage.bounded). Known finding F6; fixed through this check: F13 (d15a998), F1 (fe85a87).'
-TECHNIQUE = "contract-based deductive verification of the building blocks (update_min, delay composition and order, connect_one's minimum); the worklist closure itself by a bounded stand-in"
+LEVEL_NOTE = 'Mixed: lemmas and function contracts are proofs; the closure and the reject-iff-zero-cycle decision are proved, the translation of 'zero delay' into the statement's rule is bounded (coverage.bounded). Known finding F6; fixed through this check: F13 (d15a998), F1 (fe85a87).'
+TECHNIQUE = "contract-based deductive verification of the building blocks (update_min, delay composition and order, connect_one's minimum) and of the worklist closure ensure_no_dataflow_cycles (loop invariants + path-induction lemmas); bounded stand-in for the rule translation"
 CLAIMED = True
 NA_REASON = ""
